@@ -45,6 +45,11 @@ OPTS0 = dict(yacckind="original_generic", recoverer="cpctplus", sformat="variabl
              dot_matches_new_line=True)
 ALT = dict(yacckind="original_noaction", recoverer="none", sformat="fixed", eoc=False, wae=True, showw=True, vis="public",
            edition="2018", mod_name="pm", lex_vis="public", lex_mod_name="lm", case_insensitive=True, dot_matches_new_line=False)
+# every value a setting can take; each ordered pair of values is exercised as a change between builds
+VALUES = dict(yacckind=["original_generic", "original_noaction"], recoverer=["cpctplus", "none"], sformat=["variable", "fixed"],
+              eoc=[True, False], wae=[False, True], showw=[False, True], vis=["private", "public", "crate", "super"],
+              edition=["2021", "2018", "2015"], mod_name=["unset", "pm", "pm2"], lex_vis=["private", "public"],
+              lex_mod_name=["unset", "lm"], case_insensitive=[False, True], dot_matches_new_line=[True, False])
 BASE = 1_700_000_000
 
 
@@ -105,9 +110,13 @@ def histories(seed, n):
     rng = random.Random(seed * 77 + 18)
     hs = []
     # every setting toggled between builds: a change must regenerate, the repeat must not
-    for k in ALT:
-        which = "both" if k in ("lex_vis", "lex_mod_name", "case_insensitive", "dot_matches_new_line") else rng.choice(["parser", "both"])
-        hs.append([("build", which), ("set", k, ALT[k]), ("build", which), ("build", which), ("set", k, OPTS0[k]), ("build", which)])
+    for k in VALUES:
+        for v1 in VALUES[k]:
+            for v2 in VALUES[k]:
+                if v1 == v2:
+                    continue
+                which = "both" if k in ("lex_vis", "lex_mod_name", "case_insensitive", "dot_matches_new_line") else rng.choice(["parser", "both"])
+                hs.append([("set", k, v1), ("build", which), ("set", k, v2), ("build", which), ("build", which)])
     # every grammar / lexer version after a good build, then repaired
     for v in G:
         for which in ("parser", "both"):
@@ -123,8 +132,8 @@ def histories(seed, n):
         h = []
         for _ in range(rng.randint(4, 9)):
             if rng.random() < 0.3:
-                k = rng.choice(sorted(ALT))
-                h.append(("set", k, rng.choice([ALT[k], OPTS0[k]])))
+                k = rng.choice(sorted(VALUES))
+                h.append(("set", k, rng.choice(VALUES[k])))
             else:
                 h.append(rng.choice(ops))
         h.append(("build", rng.choice(["parser", "both"])))
